@@ -491,9 +491,23 @@ impl<Front: SocketHandler, L: ListenerHandler> Pipe<Front, L> {
     }
 
     pub fn frontend_hup(&mut self, metrics: &mut SessionMetrics) -> SessionResult {
-        self.log_request_success(metrics);
         self.frontend_status = ConnectionStatus::Closed;
-        SessionResult::Close
+        if !self.check_connections() {
+            self.log_request_success(metrics);
+            return SessionResult::Close;
+        }
+        // Mirror of `backend_hup`: the request bytes the client sent before
+        // it hung up (in the kernel, the buffer or the splice pipe) must
+        // reach the backend before the session is closed.
+        debug!(
+            "{} Pipe::frontend_hup: frontend connection closed, keeping alive due to inflight data.",
+            log_context!(self)
+        );
+        self.backend_readiness.interest.insert(Ready::WRITABLE);
+        if self.frontend_readiness.event.is_readable() {
+            self.frontend_readiness.interest.insert(Ready::READABLE);
+        }
+        SessionResult::Continue
     }
 
     pub fn backend_hup(&mut self, metrics: &mut SessionMetrics) -> SessionResult {
@@ -601,6 +615,18 @@ impl<Front: SocketHandler, L: ListenerHandler> Pipe<Front, L> {
             }
         }
 
+        if res == SocketResult::Closed {
+            // End of the request stream. The bytes read before it are still to
+            // be written to the backend: `check_connections` keeps the session
+            // until they are, like `backend_readable` does for the response.
+            self.frontend_readiness.event.remove(Ready::READABLE);
+            self.frontend_status = match self.frontend_status {
+                ConnectionStatus::Normal => ConnectionStatus::WriteOpen,
+                ConnectionStatus::ReadOpen => ConnectionStatus::Closed,
+                s => s,
+            };
+        }
+
         if !self.check_connections() {
             self.reset_readiness_for_close();
             self.log_request_success(metrics);
@@ -613,15 +639,10 @@ impl<Front: SocketHandler, L: ListenerHandler> Pipe<Front, L> {
                 self.log_request_error(metrics, "front socket read error");
                 return SessionResult::Close;
             }
-            SocketResult::Closed => {
-                self.reset_readiness_for_close();
-                self.log_request_success(metrics);
-                return SessionResult::Close;
-            }
             SocketResult::WouldBlock => {
                 self.frontend_readiness.event.remove(Ready::READABLE);
             }
-            SocketResult::Continue => {}
+            SocketResult::Closed | SocketResult::Continue => {}
         };
 
         self.backend_readiness.interest.insert(Ready::WRITABLE);
@@ -755,6 +776,13 @@ impl<Front: SocketHandler, L: ListenerHandler> Pipe<Front, L> {
                     self.backend_readiness.interest.remove(Ready::WRITABLE);
                     count!(names::backend::BACK_BYTES_OUT, sz as i64);
                     metrics.backend_bout += sz;
+                    // these may have been the last request bytes of a client
+                    // that already hung up
+                    if !self.check_connections() {
+                        self.reset_readiness_for_close();
+                        self.log_request_success(metrics);
+                        return SessionResult::Close;
+                    }
                     return SessionResult::Continue;
                 }
 
@@ -985,6 +1013,17 @@ impl<Front: SocketHandler, L: ListenerHandler> Pipe<Front, L> {
             }
         }
 
+        if res == SocketResult::Closed {
+            // End of the request stream: what is pending in the pipe is still to
+            // be spliced to the backend (see `readable`).
+            self.frontend_readiness.event.remove(Ready::READABLE);
+            self.frontend_status = match self.frontend_status {
+                ConnectionStatus::Normal => ConnectionStatus::WriteOpen,
+                ConnectionStatus::ReadOpen => ConnectionStatus::Closed,
+                s => s,
+            };
+        }
+
         if !self.check_connections() {
             self.reset_readiness_for_close();
             self.log_request_success(metrics);
@@ -997,15 +1036,10 @@ impl<Front: SocketHandler, L: ListenerHandler> Pipe<Front, L> {
                 self.log_request_error(metrics, "splice front socket read error");
                 return SessionResult::Close;
             }
-            SocketResult::Closed => {
-                self.reset_readiness_for_close();
-                self.log_request_success(metrics);
-                return SessionResult::Close;
-            }
             SocketResult::WouldBlock => {
                 self.frontend_readiness.event.remove(Ready::READABLE);
             }
-            SocketResult::Continue => {}
+            SocketResult::Closed | SocketResult::Continue => {}
         }
 
         self.backend_readiness.interest.insert(Ready::WRITABLE);
@@ -1135,6 +1169,13 @@ impl<Front: SocketHandler, L: ListenerHandler> Pipe<Front, L> {
                 self.backend_readiness.interest.remove(Ready::WRITABLE);
                 count!(names::backend::BACK_BYTES_OUT, sz as i64);
                 metrics.backend_bout += sz;
+                // these may have been the last request bytes of a client
+                // that already hung up
+                if !self.check_connections() {
+                    self.reset_readiness_for_close();
+                    self.log_request_success(metrics);
+                    return SessionResult::Close;
+                }
                 return SessionResult::Continue;
             }
 
@@ -1341,7 +1382,11 @@ impl<Front: SocketHandler, L: ListenerHandler> SessionState for Pipe<Front, L> {
         let mut counter = 0;
 
         if self.frontend_readiness.event.is_hup() {
-            return SessionResult::Close;
+            if self.frontend_hup(metrics) == SessionResult::Close {
+                return SessionResult::Close;
+            }
+            // request bytes are still in flight: relay them before closing
+            self.frontend_readiness.event.remove(Ready::HUP);
         }
 
         while counter < MAX_LOOP_ITERATIONS {
